@@ -774,11 +774,13 @@ def correspondence(ctx, H, rec):
 # ----------------------------------------------------------------------------------------------
 # oracle: every public function of the quantifier
 class Entry:
-    def __init__(self, name, fn, gen, canonical="c64", optional=False, options=None):
+    def __init__(self, name, fn, gen, canonical="c64", optional=False, options=None, covers=None):
         # optional: the function is allowed to reject every case (a variant outside what it documents)
         # options: documented keyword options -> values to exercise (first = the default, used in the canonical case)
         self.name, self.fn, self.gen, self.canonical, self.optional = name, fn, gen, canonical, optional
         self.options = options or {}
+        # public names of the library this entry exercises (inventory cross-check); default: from the entry name
+        self.covers = covers or [name.split("/")[0]]
 
 
 def build_entries(H):
@@ -786,8 +788,8 @@ def build_entries(H):
     M, S, A, T, D, Q, SG = H.metrics, H.sutils, H.armodels, H.transform, H.dutils, H.qualitycontrol, H.signatures
     E = []
 
-    def add(name, fn, gen, canonical="c64", optional=False, options=None):
-        E.append(Entry(name, fn, gen, canonical, optional, options))
+    def add(name, fn, gen, canonical="c64", optional=False, options=None, covers=None):
+        E.append(Entry(name, fn, gen, canonical, optional, options, covers))
 
     def N(n):
         """series length: beyond the internal thresholds of the library in the `big` cases (same offset for every
@@ -940,10 +942,11 @@ def build_entries(H):
             if tn == "Logit":
                 return [Arg("trans", tr, "fixed"), Arg("x", vec(rng, None, 0.05, 0.95))]
             return [Arg("trans", tr, "fixed"), Arg("x", vec(rng, None, 0.2, 0.9))]
-        add(f"transform.{tn}.forward", lambda trans, x: trans.forward(x), gen)
-        add(f"transform.{tn}.backward", lambda trans, x: trans.backward(x), gen)
-        add(f"transform.{tn}.jacobian", lambda trans, x: trans.jacobian(x), gen)
-        add(f"transform.{tn}.backward_censored", lambda trans, x: trans.backward_censored(x, censor=0.3), gen)
+        for meth in ("forward", "backward", "jacobian"):
+            add(f"transform.{tn}.{meth}", lambda trans, x, meth=meth: getattr(trans, meth)(x), gen,
+                covers=[f"transform.Transform.{meth}", f"transform.{tn}.__init__"])
+        add(f"transform.{tn}.backward_censored", lambda trans, x: trans.backward_censored(x, censor=0.3), gen,
+            covers=["transform.Transform.backward_censored"])
 
     # ---------------- dutils
     add("dutils.sequence_true", lambda values: D.sequence_true(values),
@@ -1039,8 +1042,8 @@ def build_entries(H):
         lambda rng: [Arg("self", fgrid(rng, rng.choice(gtypes)), "fixed"), Arg("xyslice", gxy(rng))])
     add("Grid.__getitem__", lambda self, index: self[index],
         lambda rng: [Arg("self", fgrid(rng, rng.choice(gtypes)), "fixed"), Arg("index", gcells(rng), "int")])
-    add("Grid.data.setter", lambda self, value: (setattr(self, "data", value), self.data)[1],
-        lambda rng: [Arg("self", G.Grid("g", 7, 6, dtype=rng.choice(gtypes)), "receiver"), Arg("value", mat(rng, 6, 7, 0, 50))])
+    add("Grid.data.setter", covers=["Grid.data"], fn= lambda self, value: (setattr(self, "data", value), self.data)[1],
+        gen=lambda rng: [Arg("self", G.Grid("g", 7, 6, dtype=rng.choice(gtypes)), "receiver"), Arg("value", mat(rng, 6, 7, 0, 50))])
     add("Grid.__setitem__", lambda self, index, value: (self.__setitem__(index, value), self.data)[1],
         lambda rng: [Arg("self", fgrid(rng, rng.choice(gtypes)), "receiver"), Arg("index", np.array([3, 11, 40]), "int"),
                      Arg("value", vec(rng, 3))])
@@ -1192,7 +1195,7 @@ def build_entries(H):
             return b.stats
         finally:
             plt.close(fig)
-    add("boxplot.Boxplot", lambda data, **o: bp(data, **o), lambda rng: [Arg("data", holes(rng, mat(rng, 25, 3)))],
+    add("boxplot.Boxplot", lambda data, **o: bp(data, **o), covers=["boxplot.Boxplot.__init__", "boxplot.Boxplot.draw"], gen= lambda rng: [Arg("data", holes(rng, mat(rng, 25, 3)))],
         options={"style": ["default", "narrow"], "show_mean": [False, True], "show_text": [False, True],
                  "width_from_count": [False, True], "box_coverage": [50., 80.], "whiskers_coverage": [90., 95.]})
     add("boxplot.Boxplot/1d", lambda data: bp(data, show_text=True, show_mean=True), lambda rng: [Arg("data", vec(rng, 25))])
@@ -1208,7 +1211,7 @@ def build_entries(H):
             return (vl.stats, vl.kde_x, vl.kde_y)
         finally:
             plt.close(fig)
-    add("violinplot.Violin", lambda data, **o: vp(data, **o), lambda rng: [Arg("data", holes(rng, mat(rng, 25, 2)))],
+    add("violinplot.Violin", lambda data, **o: vp(data, **o), covers=["violinplot.Violin.__init__"], gen= lambda rng: [Arg("data", holes(rng, mat(rng, 25, 2)))],
         options={"show_text": [True, False]})
     add("putils.kde", lambda xy: H.putils.kde(xy, ngrid=opt(8, 50)), lambda rng: [Arg("xy", mat(rng, 25, 2, -2, 2))])
     add("putils.kde/ties", lambda xy: H.putils.kde(xy, ngrid=8),
@@ -1220,6 +1223,109 @@ def build_entries(H):
     for al in (False, True):
         add(f"putils.qqplot/addline={al}", plotted(lambda ax, data, al=al, **o: H.putils.qqplot(ax, data, addline=al, **o)),
             lambda rng: [Arg("data", holes(rng, vec(rng, 25)))], options={"censor": [None, 3.]})
+
+    # ---------------- the rest of the public inventory of the four packages (accessors, constructors from
+    # dictionaries, the remaining plot helpers taking arrays, object methods of Boxplot / Violin / Transform)
+    add("Grid.accessors", lambda self: (self.shape, self.xlim, self.ylim, self.xvalues, self.yvalues, self.nodata,
+                                        self.mindata, self.maxdata, self.dtype, np.array(self.data)),
+        lambda rng: [Arg("self", fgrid(rng, rng.choice(gtypes)), "fixed")], "fixed",
+        covers=["Grid." + k for k in ("shape", "xlim", "ylim", "xvalues", "yvalues", "nodata", "mindata", "maxdata",
+                                      "dtype", "data", "__init__")])
+
+    def gset(g, attr, val):
+        setattr(g, attr, val)
+        return np.array(g.data), g.dtype
+    add("Grid.fill", lambda self, value: (self.fill(value), np.array(self.data))[1],
+        lambda rng: [Arg("self", fgrid(rng, rng.choice(gtypes)), "receiver"), Arg("value", rng.randint(0, 9), "fixed")], "fixed")
+    for attr, vals in (("mindata", [5, 10]), ("maxdata", [40, 30]), ("nodata", [-1, -5]), ("dtype", [np.float32, np.int64])):
+        add(f"Grid.{attr}.setter", lambda self, value, attr=attr: gset(self, attr, value),
+            lambda rng, vals=vals: [Arg("self", fgrid(rng, rng.choice(gtypes)), "receiver"),
+                                    Arg("value", rng.choice(vals), "fixed")], "fixed", covers=[f"Grid.{attr}"])
+    add("Grid.set_parent_attributes", lambda self, grid: (self.set_parent_attributes(grid, 1, 3, 0, 2), None)[1],
+        lambda rng: [Arg("self", fgrid(rng), "receiver"), Arg("grid", fgrid(rng, rng.choice(gtypes)), "fixed")], "fixed")
+    add("Grid.from_dict", lambda dic: G.Grid.from_dict(dic),
+        lambda rng: [Arg("dic", fgrid(rng, rng.choice(gtypes)).to_dict(), "fixed")], "fixed")
+    add("Catchment.from_dict", lambda dic: G.Catchment.from_dict(dic),
+        lambda rng: [Arg("dic", catch(rng).to_dict(), "fixed")], "fixed")
+    add("Catchment.clone", lambda self: self.clone(), lambda rng: [Arg("self", catch(rng), "fixed")], "fixed")
+    add("Catchment.accessors",
+        lambda self: (self.idxcell_outlet, self.idxinlets, np.array(self.idxcells_area), np.array(self.idxcells_area_filled),
+                      self.flowpathlengths, np.array(self.xycells_boundary), np.array(self.idxcells_boundary),
+                      np.array(self.flowdir.data)),
+        lambda rng: [Arg("self", catch(rng), "fixed")], "fixed",
+        covers=["Catchment." + k for k in ("idxcell_outlet", "idxinlets", "idxcells_area", "idxcells_area_filled",
+                                           "flowpathlengths", "xycells_boundary", "idxcells_boundary", "flowdir",
+                                           "__init__")])
+    add("putils.bivarnplot", plotted(lambda ax, xy, **o: (H.putils.bivarnplot(ax, xy, **o), None)[1]),
+        lambda rng: [Arg("xy", mat(rng, 30, 2, -2, 2))], options={"add_semicorr": [True, False]})
+    add("putils.scattercat", plotted(lambda ax, x, y, z, **o: H.putils.scattercat(ax, x, y, z, **o)),
+        lambda rng: [Arg("x", vec(rng, 30)), Arg("y", vec(rng, 30)), Arg("z", vec(rng, 30))],
+        options={"ncats": [5, 3], "show_extremes_in_legend": [True, False]})
+    add("putils.cov_ellipse", lambda mu, cov, **o: np.array(H.putils.cov_ellipse(mu, cov, **o).get_verts()),
+        lambda rng: [Arg("mu", vec(rng, 2)), Arg("cov", np.array([[2., 0.3], [0.3, 1.]]) * rng.uniform(0.5, 2))],
+        options={"pvalue": [0.95, 0.5]})
+    add("putils.colors2cmap", lambda colors: H.putils.colors2cmap(colors)(np.linspace(0, 1, 7)),
+        lambda rng: [Arg("colors", {0.: "#3399FF", rng.choice([0.1, 0.4]): "#33FFFF", 1.0: "#33FF99"}, "fixed")], "fixed")
+    add("putils.cmap2colors", lambda ncols, cmap: H.putils.cmap2colors(ncols, cmap),
+        lambda rng: [Arg("ncols", rng.randint(3, 9), "fixed"), Arg("cmap", rng.choice(["Paired", "safe", "viridis"]), "fixed")],
+        "fixed")
+    add("boxplot.compute_percentiles", lambda coverage: H.boxplot.compute_percentiles(coverage),
+        lambda rng: [Arg("coverage", rng.choice([50., 90., 10.]), "fixed")], "fixed")
+
+    def bp_methods(data):
+        fig, ax = plt.subplots()
+        try:
+            b = H.boxplot.Boxplot(data, show_text=True)
+            b.draw(ax=ax)
+            b.show_count()
+            b.set_ylim((1., 8.))
+            b.set_color(".*", "tab:red")
+            return b.stats, ax.get_ylim()
+        finally:
+            plt.close(fig)
+    add("boxplot.Boxplot/methods", lambda data: bp_methods(data), lambda rng: [Arg("data", holes(rng, mat(rng, 25, 3)))],
+        covers=["boxplot.Boxplot." + k for k in ("__init__", "draw", "stats", "ax", "show_count", "set_ylim", "set_color")])
+
+    def vp_methods(data):
+        fig, ax = plt.subplots()
+        try:
+            vl = H.violinplot.Violin(data)
+            vl.reset_items()
+            vl.draw(ax=ax, ylim=(0., 12.))
+            return vl.stats, vl.kde_x, vl.kde_y, vl.data
+        finally:
+            plt.close(fig)
+    add("violinplot.Violin/methods", lambda data: vp_methods(data), lambda rng: [Arg("data", holes(rng, mat(rng, 25, 2)))],
+        covers=["violinplot.Violin." + k for k in ("__init__", "draw", "stats", "ax", "data", "kde_x", "kde_y", "reset_items")])
+
+    def tr_misc(trans):
+        out = []
+        for m in ("get_nu", "get_lam", "get_xmax", "params_logprior"):
+            if hasattr(trans, m):
+                try:
+                    out.append(getattr(trans, m)())
+                except Exception as e:      # noqa: the base class raises NotImplementedError for some
+                    out.append(type(e).__name__)
+        out += [np.array(trans.params.values), np.array(trans.constants.values),
+                [trans[k] for k in trans.params.names]]
+        return out
+    for tn in tnames:
+        add(f"transform.{tn}.misc", lambda trans: tr_misc(trans), lambda rng, tn=tn: [Arg("trans", tr_make(tn, rng), "fixed")],
+            "fixed", covers=[f"transform.{tn}." + k for k in ("__init__", "get_nu", "get_lam", "get_xmax", "params_logprior")]
+            + ["transform.Transform." + k for k in ("params", "constants", "__getitem__", "__init__", "params_logprior")])
+
+    def tr_set(trans):
+        k = trans.params.names[0] if trans.params.nval else None
+        if k is not None:
+            trans[k] = trans[k] * 0.9
+        before = np.array(trans.params.values)
+        trans.reset()
+        return before, np.array(trans.params.values)
+    add("transform.Transform.__setitem__", lambda trans: tr_set(trans),
+        lambda rng: [Arg("trans", tr_make(rng.choice(["Log", "BoxCox2", "YeoJohnson", "Sinh"]), rng), "receiver")], "fixed",
+        covers=["transform.Transform.__setitem__", "transform.Transform.reset"])
+    add("transform.get_transform", lambda name: T.get_transform(name).params.values,
+        lambda rng: [Arg("name", rng.choice(tnames), "fixed")], "fixed")
     return E
 
 
